@@ -95,15 +95,65 @@ func (p *Prog) reachableFuncs() map[*ssa.Function]bool {
 	return reach
 }
 
+type wiredEntry struct {
+	Callers []string `json:"callers"` // declared functions that called it (directly or from their closures)
+	Effects []string `json:"effects"` // calls made and fields written by its body (closures included)
+}
+
+// effectsOf: what a function's body does, as a set of names: callees, written fields, updated map fields.
+func effectsOf(p *Prog, fn *ssa.Function) map[string]bool {
+	out := map[string]bool{}
+	withAnon(fn, func(f *ssa.Function) {
+		allInstrs(f, func(ins ssa.Instruction) {
+			switch x := ins.(type) {
+			case *ssa.Store:
+				if fk := fieldKeyOfAddr(x.Addr); fk != "" {
+					out["store:"+fk] = true
+				}
+			case *ssa.MapUpdate:
+				for _, l := range p.Leaves(x.Map, provOpts{}) {
+					if strings.HasPrefix(l, "field:") {
+						out["mapupdate:"+l[6:]] = true
+					}
+				}
+			case *ssa.Send:
+				out["send"] = true
+			default:
+				if n := callName(ins); n != "" && n != "dynamic" && !strings.Contains(n, "/log.") {
+					out["call:"+n] = true
+				}
+			}
+		})
+	})
+	return out
+}
+
 func writeBaselineReachable(p *Prog) {
 	reach := p.reachableFuncs()
-	var out []string
+	cg := p.CG()
+	out := map[string]wiredEntry{}
 	for _, fn := range p.Funcs {
-		if fn.Parent() == nil && reach[fn] && fn.Synthetic == "" {
-			out = append(out, fnName(fn))
+		if fn.Parent() != nil || !reach[fn] || fn.Synthetic != "" {
+			continue
 		}
+		e := wiredEntry{}
+		seen := map[string]bool{}
+		if n := cg.Nodes[fn]; n != nil {
+			for _, in := range n.In {
+				c := topFunc(in.Caller.Func)
+				if c != fn && p.Analysed(c) && !seen[fnName(c)] {
+					seen[fnName(c)] = true
+					e.Callers = append(e.Callers, fnName(c))
+				}
+			}
+		}
+		for k := range effectsOf(p, fn) {
+			e.Effects = append(e.Effects, k)
+		}
+		sort.Strings(e.Callers)
+		sort.Strings(e.Effects)
+		out[fnName(fn)] = e
 	}
-	sort.Strings(out)
 	b, _ := json.MarshalIndent(out, "", " ")
 	fmt.Println(string(b))
 }
@@ -123,7 +173,7 @@ func ruleStillWired(r *Run) {
 	files := anchorFilesOf(r.Prop)
 	r.Begin("W0", "still wired: every declared function of the property's anchor files ("+strings.Join(files, ", ")+") that was reachable from the exported API on the confirmed tree, and still exists, is still reachable in the call graph (a deleted call that disconnects a reader loop, a cleanup or a handler leaves the function in place but dead)", 1)
 	p := r.P
-	var base []string
+	var base map[string]wiredEntry
 	if err := json.Unmarshal(baselineReachableJSON, &base); err != nil || len(base) == 0 {
 		r.Undecided("baseline", "baseline_reachable.json is empty")
 		return
@@ -141,8 +191,14 @@ func ruleStillWired(r *Run) {
 		return false
 	}
 	wasReach := map[string]bool{}
-	for _, b := range base {
+	for b := range base {
 		wasReach[b] = true
+	}
+	byName := map[string]*ssa.Function{}
+	for _, fn := range p.Funcs {
+		if fn.Parent() == nil {
+			byName[fnName(fn)] = fn
+		}
 	}
 	reach := p.reachableFuncs()
 	n, gone := 0, 0
@@ -157,9 +213,33 @@ func ruleStillWired(r *Run) {
 			continue
 		}
 		n++
+		if !reach[fn] {
+			// inlined by hand? a former caller that now performs everything this function did makes the leftover harmless
+			inlined := ""
+			for _, cn := range base[name].Callers {
+				g := byName[cn]
+				if g == nil || !reach[g] {
+					continue
+				}
+				now := effectsOf(p, g)
+				all := len(base[name].Effects) > 0
+				for _, e := range base[name].Effects {
+					if !now[e] {
+						all = false
+					}
+				}
+				if all {
+					inlined = cn
+				}
+			}
+			if inlined != "" {
+				r.Check(name+" reachable", true, p.pos(fn.Pos()), name, "no longer called, but its former caller "+inlined+" now performs every call and store of its body itself (inlined by hand; the leftover is dead code)")
+				continue
+			}
+		}
 		r.Check(name+" reachable", reach[fn], p.pos(fn.Pos()), name, "this function was reachable from the exported API on the confirmed tree and is no longer called from anywhere reachable: the call (or go statement) that connected it was removed")
 	}
-	for _, b := range base {
+	for b := range base {
 		if !seenNow[b] {
 			gone++
 		}
